@@ -231,9 +231,12 @@ def exclNotes (wk : K) (baseMap subMap : List (Found K)) : List String :=
   let subWild := subMap.any (·.user = wk)
   noteIf (!baseWild && baseMap.any (fun fu => fu.status = .no && noK subMap fu.user)) "excl-flip" ++
   noteIf (baseWild && !subWild && baseMap.any (fun fu => fu.status = .no && !hasK subMap fu.user)) "excl-wild-has" ++
-  noteIf (baseWild && baseMap.any (fun fu => fu.status = .no && noK subMap fu.user)) "excl-wild-flip" ++
-  noteIf (baseMap.any (fun f => f.excluded.any (fun k => !noK baseMap k)) ||
-          subMap.any (fun f => f.excluded.any (fun k => !noK subMap k))) "excl-excluded-unread"
+  noteIf (baseWild && baseMap.any (fun fu => fu.status = .no && noK subMap fu.user)) "excl-wild-flip"
+
+/-- `expandExclusion` never reads `excludedUsers`: an operand channel that lists an excluded user without
+also carrying a `NoRelationship` entry for it loses that information -/
+def unreadNote (l : List (Found K)) : List String :=
+  noteIf (l.any (fun f => f.excluded.any (fun k => !noK l k))) "excl-excluded-unread"
 
 end reducers
 
@@ -271,7 +274,7 @@ def diffCycleResp (rb rs : Resp K) : Resp K :=
 def diffResp (wk : K) (isWild : K → Bool) (rb rs : Resp K) (bm sm : List (Found K)) : Resp K :=
   { found := exclR wk isWild bm sm, cut := rb.cut || rs.cut, errs := rb.errs ++ rs.errs,
     notes := rb.notes ++ rs.notes ++ clashNote rb.found ++ clashNote rs.found ++ exclNotes wk bm sm ++
-      noteIf rs.cut "excl-sub-cut" }
+      unreadNote rb.found ++ unreadNote rs.found ++ noteIf rs.cut "excl-sub-cut" }
 
 /-- what `ListUsers` returns -/
 structure Answer (K : Type) where
